@@ -218,14 +218,56 @@ def probe_inplace_and_hybrid(ctx):
         shutil.rmtree(tmpdir, ignore_errors=True)
 
 
+def probe_relocation_directory_release(ctx):
+    """a relocation directory with a long Rock Ridge name (set_relocated_name) has a continuation area of its own; when the
+    last relocated directory goes and the relocation directory with it, that area has to be given back: after everything
+    is removed the declared size is that of a new image, and the allocation of the written image is sound"""
+    import os
+    import shutil
+    import tempfile
+    import pycdlib
+    tmpdir = tempfile.mkdtemp(prefix='verif-c04r-')
+    try:
+        for ver in ('1.09', '1.12'):
+            for ln in (8, 120, 200):
+                rp = {'kind': 'probe-relocation-release', 'ver': ver, 'len': ln}
+                with isoapi.frozen_time():
+                    iso = pycdlib.PyCdlib()
+                    iso.new(interchange_level=3, rock_ridge=ver)
+                    iso.set_relocated_name('XX_MOVED', 'm' * ln)
+                    fresh = iso.pvd.space_size
+                    p = ''
+                    for i in range(8):
+                        p += '/DIR%d' % i
+                        iso.add_directory(p, rr_name='dir%d' % i)
+                    for i in range(7, -1, -1):
+                        iso.rm_directory('/' + '/'.join('DIR%d' % j for j in range(i + 1)), rr_name='dir%d' % i)
+                    left = iso.pvd.space_size
+                    path = os.path.join(tmpdir, 'r.iso')
+                    iso.write(path)
+                    iso.close()
+                ctx.count(key=('relocation-release', ver, ln), nontrivial=True, kind='probe:relocation-release')
+                rep = isoapi.read_image(ctx, path)
+                bad = isoapi.check_allocs(rep)
+                if left != fresh or bad:
+                    ctx.violation('C04.alloc/relocation-directory-leak', 'Rock Ridge %s, relocation directory with a %d-byte name: after every directory is removed the '
+                                  'declared size is %d sectors, a new image has %d (%s)' % (ver, ln, left, fresh, '; '.join('%s %s' % b for b in bad[:2]) or 'a continuation block is still counted'), rp)
+    finally:
+        shutil.rmtree(tmpdir, ignore_errors=True)
+
+
 def run(ctx):
     probe_inplace_and_hybrid(ctx)
+    probe_relocation_directory_release(ctx)
     c01.run(ctx, focus='C04', post=post, n_quick=170, n_thorough=5000, force={'duppvd': True})
     # allocation must stay sound for edits made to a reopened image (parsed continuation areas, parsed extents)
     c01.run(ctx, focus='C04', post=post, n_quick=100, n_thorough=3000, reopen_every=5)
 
 
 def replay(ctx, obj):
+    if obj.get('replay', obj).get('kind') == 'probe-relocation-release':
+        probe_relocation_directory_release(ctx)
+        return [v['signature'] for v in ctx.violations]
     if obj.get('replay', obj).get('kind') == 'probe-inplace-hybrid':
         probe_inplace_and_hybrid(ctx)
         return [v['signature'] for v in ctx.violations]
